@@ -192,7 +192,18 @@ def sh2(prog):
     for variant in ("BDD", "ComplBDD"):
         for r, conds in (canon.paths_under(fn, ptr, variant, with_conds=True) or []):
             r0 = strip(r)
-            if not (mir.is_call(r0) and r0[1].name in ("high", "low") and r0[2] and strip(r0[2][0]) == ptr):
+            # the returned child as (which child, complemented relative to the stored child): the pointer-level
+            # accessors already apply the node's complement; the accessors of the node behind the pointer do not
+            flips, raw = 0, None
+            while mir.is_call(r0) and r0[1].name == "neg" and r0[2]:
+                flips += 1
+                r0 = strip(r0[2][0])
+            if mir.is_call(r0) and r0[1].name in ("high", "low") and r0[2] and strip(r0[2][0]) == ptr:
+                raw = False
+            elif mir.is_call(r0) and r0[1].name in ("high", "low") and r0[2] and "BinarySDD" in r0[1].key() and \
+                    show(strip(r0[2][0])) in ("(arg2 as BDD).0", "(arg2 as ComplBDD).0"):
+                raw = True
+            if raw is None or (flips and not raw):
                 continue
             v = None
             for c, lab, _ in conds:
@@ -211,6 +222,11 @@ def sh2(prog):
                 continue
             n += 1
             want = "high" if v else "low"
+            if raw and (flips % 2 == 1) != (variant == "ComplBDD"):
+                errs.append("for a %s pointer the conditioned result is the node's stored %s child %s: the stored children of a "
+                            "complemented node denote the complement of the node's cofactors" % (
+                                "complemented binary" if variant == "ComplBDD" else "regular binary", r0[1].name,
+                                "negated" if flips % 2 else "as it is"))
             if r0[1].name != want:
                 errs.append("for a %s pointer, value = %s returns the %s child: the accessors already apply the complement, so "
                             "the choice must not depend on the pointer's sign" % (
